@@ -2,6 +2,7 @@ pub mod c01;
 pub mod c02;
 pub mod c03;
 pub mod c05;
+pub mod c06;
 pub mod c11;
 pub mod diag;
 pub mod sender;
